@@ -82,10 +82,18 @@ def tasks(tier):
     for pc, mu, at, tc in itertools.product([{}, {"T": 1}, {"S": 1}], [None, 1], [1, 2],
                                             ["T", "P", "U", "S"]):
         for e in Q4:
-            cfg = dict(M=3, per_class=pc, max_unknown=mu, alphabet=["ok", "x:T", "x:U", "r:T"],
+            cfg = dict(M=3, per_class=pc, max_unknown=mu,
+                       alphabet=["ok", "x:T", "x:U", "r:T", "xR:T", "xR:P"],
                        attempt_timeout=at, timeout_class=tc, durs=[0, 3], dur_free=True,
                        loop=e.startswith("Async"), sleeper_async=e.startswith("Async"))
             out.append({"family": "caps-attempt-timeout", "cfg": cfg, "entry": e, "bound": 0})
+    # long runs: a cap of 8 or 9, and a cap of 1 whose class comes back after many other failures
+    for pc, mu in [({"T": 8}, None), ({"T": 9, "U": 1}, None), ({}, 8), ({"U": 1, "T": 10}, 3)]:
+        for e in Q4:
+            cfg = dict(M=12, per_class=pc, max_unknown=mu, alphabet=["x:T", "x:U"])
+            for first in (["x:T", "x:T"], ["x:T", "x:U"], ["x:U", "x:T"], ["x:U", "x:U"]):
+                out.append({"family": "caps-long", "cfg": dict(cfg, script_prefix=first),
+                            "entry": e, "bound": 0, "weight": 3})
     # the operation raises the very same exception object again, now classified differently
     for pc, mu in itertools.product([{}, {"T": 1}], [None, 1]):
         for e in Q4 + ["Policy.call", "AsyncPolicy.execute"]:
